@@ -202,6 +202,7 @@ func verifC20_Step() {
 	w := &ObjectEntityWatcher{filter: FilterCategory(CategoryBusinessController),
 		entities: map[string]*ObjectEntity{}, eventChan: make(chan *ObjectEntityWatcherEvent, 10)}
 	or := &ObjectRegistry{super: s, entities: map[string]*ObjectEntity{}, watchers: map[string]*ObjectEntityWatcher{watcherName: w}}
+	verifInitMaps(or) // maps a bypassed constructor would have made
 	s.objectRegistry, s.watcher = or, w
 
 	var pre [3]vAbs
@@ -238,6 +239,7 @@ func verifC20_Hist() {
 	n := verifBound("names")
 	s := &Supervisor{firstHandle: true, firstHandleDone: make(chan struct{})}
 	or := &ObjectRegistry{super: s, entities: map[string]*ObjectEntity{}, watchers: map[string]*ObjectEntityWatcher{}}
+	verifInitMaps(or) // maps a bypassed constructor would have made
 	s.objectRegistry = or
 	s.watcher = or.NewWatcher(watcherName, FilterCategory(CategoryBusinessController))
 	vPanicAt = -1
